@@ -245,11 +245,25 @@ pub fn c08_sweep(tier: Tier) -> (Acc, Value) {
     });
     let short_cases = short.evals;
     total.merge(short);
+    // the same rule for names that do not fit the small string's inline buffer (23 bytes)
+    let long_n = n.saturating_sub(2);
+    let long = for_all_short(&alphabet, long_n, |s, acc| {
+        if s.is_empty() {
+            return;
+        }
+        for filler in ["aaaaaaaaaaaaaaaaaaaa", "Bbbbbbbbbbbbbbbbbbbbbbbb-"] {
+            let name = format!("{filler}{s}");
+            c08_name_case("pypi", &name, acc);
+            c08_name_case("nuget", &name, acc);
+        }
+    });
+    let long_cases = long.evals;
+    total.merge(long);
     // maven: every namespace spelling without a non-empty segment is refused by builder and parser
     let maven = for_all_short(&["/", "a", "%2F", "."], 5, |s, acc| c08_maven_case(s, acc));
     let maven_cases = maven.evals;
     total.merge(maven);
-    (total, json!({"engine": "E-sweep", "scalar_values": N_SCALARS, "scalar_name_cases": scalar_cases, "short_name_alphabet": alphabet, "short_name_max_len": n, "short_name_cases": short_cases, "maven_namespace_cases": maven_cases}))
+    (total, json!({"engine": "E-sweep", "scalar_values": N_SCALARS, "scalar_name_cases": scalar_cases, "short_name_alphabet": alphabet, "short_name_max_len": n, "short_name_cases": short_cases, "long_name_max_tail": long_n, "long_name_cases": long_cases, "maven_namespace_cases": maven_cases}))
 }
 
 // ------------------------------------------------------------------------------------------------
@@ -262,21 +276,35 @@ pub fn c15_case(s: &str, acc: &mut Acc) {
     acc.calls += 1;
     let case = json!({"engine": "c15", "input": s});
     match guarded(|| purl::PackageType::from_str(s)) {
-        Err(m) => acc.violate(Violation { prop: "C06", kind: "panic".into(), case, detail: m }),
+        Err(m) => acc.violate(Violation { prop: "C06", kind: "panic".into(), case: case.clone(), detail: m }),
         Ok(Ok(t)) => {
             acc.accepted += 1;
             acc.sig(&("ok", t.name()));
             if s.to_ascii_lowercase() != t.name() {
-                acc.violate(Violation { prop: "C15", kind: "foreign-string-accepted".into(), case, detail: format!("{:?} is taken for {:?}", s, t.name()) });
+                acc.violate(Violation { prop: "C15", kind: "foreign-string-accepted".into(), case: case.clone(), detail: format!("{:?} is taken for {:?}", s, t.name()) });
             }
         },
         Ok(Err(_)) => {
             acc.rejected += 1;
             acc.sig(&"err");
             if R::KNOWN_TYPES.contains(&s.to_ascii_lowercase().as_str()) {
-                acc.violate(Violation { prop: "C15", kind: "case-variant-refused".into(), case, detail: format!("{:?} is a case variant of a known type but is refused", s) });
+                acc.violate(Violation { prop: "C15", kind: "case-variant-refused".into(), case: case.clone(), detail: format!("{:?} is a case variant of a known type but is refused", s) });
             }
         },
+    }
+    // the same string as the type segment of a whole PURL: it is taken for a known type only if it
+    // is that type's name in some letter case
+    if !s.is_empty() && !s.contains(['/', '?', '#', '@']) {
+        acc.calls += 1;
+        let text = format!("pkg:{s}/g/n");
+        if let Ok(Ok(p)) = guarded(|| <purl::PackageType as PFlavor>::parse(&text)) {
+            let name = p.package_type().name();
+            if s.to_ascii_lowercase() != name {
+                acc.violate(Violation { prop: "C15", kind: "foreign-type-segment-accepted".into(), case: case.clone(), detail: format!("{:?} is parsed as a PURL of type {:?}", text, name) });
+            }
+        } else if R::KNOWN_TYPES.contains(&s.to_ascii_lowercase().as_str()) {
+            acc.violate(Violation { prop: "C15", kind: "case-variant-refused-in-purl".into(), case, detail: format!("{:?} is refused although its type is a case variant of a known type", text) });
+        }
     }
 }
 
@@ -421,6 +449,17 @@ pub fn c15_sweep(tier: Tier) -> (Acc, Value) {
         }
         misc.push(format!("{name}{name}"));
         misc.push(String::new());
+        // each letter percent-encoded, both hex cases, lower- and upper-case letter
+        for i in 0..chars.len() {
+            for c in [chars[i], chars[i].to_ascii_uppercase()] {
+                for enc in [format!("%{:02X}", c as u8), format!("%{:02x}", c as u8)] {
+                    let mut t: String = chars[..i].iter().collect();
+                    t.push_str(&enc);
+                    t.extend(&chars[i + 1..]);
+                    misc.push(t);
+                }
+            }
+        }
     }
     for other in [
         "alpm", "apk", "bitbucket", "bitnami", "cocoapods", "composer", "conan", "conda", "cpan", "cran", "deb", "docker", "generic", "github", "hackage", "hex", "huggingface", "luarocks", "mlflow", "oci", "pub", "qpkg", "rpm", "swid",
